@@ -233,6 +233,14 @@ Proof.
   destruct (Rlt_bool_spec 0 (RV c)); [assumption | discriminate].
 Qed.
 
+(* exponent bound of a closed float, for the leaves of bnd_tac *)
+Definition lit_k (c : PrimFloat.float) : Z :=
+  match Prim2SF c with S754_finite _ m e => (Z.log2 (Z.pos m) + 1 + e)%Z | _ => 0%Z end.
+Ltac bnd_lit c :=
+  tryif (match c with context [?v] => is_var v end) then fail "bnd_lit: not closed" c else
+  (let k := eval vm_compute in (lit_k c) in
+   apply (lit_bnd c k); vm_compute; reflexivity).
+
 (* derive [bnd e ?k] by recursion over the expression e *)
 Ltac bnd_tac :=
   cbn [f_add f_sub f_mul f_div f_lit f_abs f_neg f_floor f_trunc zf f_of_Z B0 B64ops B64opsC];
@@ -241,8 +249,87 @@ Ltac bnd_tac :=
   | |- bnd (?a - ?b)%float _ => eapply sub_bnd; [bnd_tac | bnd_tac | vm_compute; reflexivity]
   | |- bnd (?a * ?b)%float _ => eapply mul_bnd; [bnd_tac | bnd_tac | vm_compute; reflexivity]
   | |- bnd (?a / ?b)%float _ => first [ eapply div_lit_bnd; [bnd_tac | vm_compute; reflexivity | vm_compute; reflexivity]
-                                       | eapply lit_bnd; timeout 5 (vm_compute; reflexivity) ]
+                                       | timeout 5 (bnd_lit (a / b)%float) ]
   | |- bnd (pymod ?a ?y) _ => eapply pymod_bnd; [bnd_tac | bnd_tac | apply lit_pos_chk; reflexivity]
   | |- bnd (abs ?a) _ => eapply abs_bnd; bnd_tac
-  | |- bnd ?c _ => first [ eassumption | eapply lit_bnd; timeout 5 (vm_compute; reflexivity) ]
+  | |- bnd ?c _ => first [ eassumption | timeout 5 (bnd_lit c) ]
+  end.
+
+(* ------------------------------------ the same for non-negative quantities *)
+Definition bnn (x : PrimFloat.float) (k : Z) : Prop := fin x /\ 0 <= RV x <= bpow radix2 k.
+Lemma bnn_bnd x k : bnn x k -> bnd x k.
+Proof. intros [F [H0 H1]]. split; [exact F | rewrite Rabs_pos_eq; assumption]. Qed.
+Lemma bnd_bnn x k : bnd x k -> 0 <= RV x -> bnn x k.
+Proof. intros [F H] H0. split; [exact F|]. rewrite Rabs_pos_eq in H by exact H0. lra. Qed.
+
+Lemma add_bnn a b ka kb : bnn a ka -> bnn b kb -> kok (1 + Z.max ka kb) = true -> bnn (a + b) (1 + Z.max ka kb).
+Proof.
+  intros Ha Hb Hk. apply bnd_bnn; [apply add_bnd; [apply bnn_bnd; exact Ha | apply bnn_bnd; exact Hb | exact Hk]|].
+  destruct Ha as [Fa [Ha0 Ha1]], Hb as [Fb [Hb0 Hb1]].
+  destruct (add_bnd a b ka kb) as [F _]; [split; [exact Fa | rewrite Rabs_pos_eq; assumption] | split; [exact Fb | rewrite Rabs_pos_eq; assumption] | exact Hk |].
+  apply kok_spec in Hk.
+  destruct (add_R a b Fa Fb) as [A _].
+  - assert (Rabs (RV a + RV b) <= bpow radix2 (1 + Z.max ka kb)) as H.
+    { rewrite Rabs_pos_eq by lra. rewrite bpow_plus. change (bpow radix2 1) with 2.
+      assert (bpow radix2 ka <= bpow radix2 (Z.max ka kb)) by (apply bpow_le; lia).
+      assert (bpow radix2 kb <= bpow radix2 (Z.max ka kb)) by (apply bpow_le; lia). lra. }
+    eapply Rle_lt_trans; [apply (RN_abs_le_bpow _ (1 + Z.max ka kb)); [lia | exact H] | apply bpow_lt_emax; lia].
+  - rewrite A, <- RN_0. apply RN_le. lra.
+Qed.
+Lemma mul_bnn a b ka kb : bnn a ka -> bnn b kb -> kok (ka + kb) = true -> bnn (a * b) (ka + kb).
+Proof.
+  intros Ha Hb Hk. apply bnd_bnn; [apply mul_bnd; [apply bnn_bnd; exact Ha | apply bnn_bnd; exact Hb | exact Hk]|].
+  destruct Ha as [Fa [Ha0 Ha1]], Hb as [Fb [Hb0 Hb1]]. apply kok_spec in Hk.
+  destruct (mul_R a b Fa Fb) as [A _].
+  - assert (Rabs (RV a * RV b) <= bpow radix2 (ka + kb)) as H.
+    { rewrite Rabs_pos_eq by (apply Rmult_le_pos; assumption). rewrite bpow_plus. apply Rmult_le_compat; assumption. }
+    eapply Rle_lt_trans; [apply (RN_abs_le_bpow _ (ka + kb)); [lia | exact H] | apply bpow_lt_emax; lia].
+  - rewrite A, <- RN_0. apply RN_le. apply Rmult_le_pos; assumption.
+Qed.
+(* division by a closed float >= 1 *)
+Definition lit_ge1p_chk (c : PrimFloat.float) : bool := lit_ge1_chk c && (0 <? c)%float.
+Lemma div_lit_bnn a b ka : bnn a ka -> lit_ge1p_chk b = true -> kok ka = true -> bnn (a / b) ka.
+Proof.
+  intros Ha Hb Hk. unfold lit_ge1p_chk in Hb. apply andb_true_iff in Hb. destruct Hb as [Hb1 Hb2].
+  apply bnd_bnn; [apply div_lit_bnd; [apply bnn_bnd; exact Ha | exact Hb1 | exact Hk]|].
+  destruct (lit_ge1 b Hb1) as [Fb Hge]. destruct Ha as [Fa [Ha0 Ha1]]. apply kok_spec in Hk.
+  assert (0 < RV b) as Hbp.
+  { rewrite (ltb_R 0 b fin_zero Fb), RV_zero in Hb2. destruct (Rlt_bool_spec 0 (RV b)); [assumption | discriminate]. }
+  rewrite Rabs_pos_eq in Hge by lra.
+  assert (0 <= RV a / RV b <= bpow radix2 ka) as Hq.
+  { split; [apply Rmult_le_pos; [exact Ha0 | left; apply Rinv_0_lt_compat; exact Hbp]|].
+    apply Rle_trans with (RV a * 1); [| lra]. apply Rmult_le_compat_l; [exact Ha0|].
+    rewrite <- Rinv_1. apply Rinv_le_contravar; lra. }
+  destruct (div_R a b Fa Fb ltac:(lra)) as [A _].
+  - eapply Rle_lt_trans; [apply (RN_abs_le_bpow _ ka); [lia | rewrite Rabs_pos_eq; lra] | apply bpow_lt_emax; lia].
+  - rewrite A, <- RN_0. apply RN_le. lra.
+Qed.
+Lemma pymod_bnn a y ka ky : bnd a ka -> bnd y ky -> 0 < RV y -> bnn (pymod a y) ky.
+Proof.
+  intros [Fa _] [Fy Hy] Hpos. destruct (pymod_pos_range a y Fa Fy Hpos) as (F & R & _).
+  split; [exact F|]. rewrite Rabs_pos_eq in Hy by lra. lra.
+Qed.
+Definition lit_nn_chk (c : PrimFloat.float) (k : Z) : bool := lit_chk c k && (0 <=? c)%float.
+Lemma lit_bnn c k : lit_nn_chk c k = true -> bnn c k.
+Proof.
+  unfold lit_nn_chk. rewrite andb_true_iff. intros [H1 H2]. destruct (lit_bnd c k H1) as [F H].
+  apply bnd_bnn; [split; assumption|].
+  rewrite (leb_R 0 c fin_zero F), RV_zero in H2. destruct (Rle_bool_spec 0 (RV c)); [assumption | discriminate].
+Qed.
+Ltac bnn_lit c :=
+  tryif (match c with context [?v] => is_var v end) then fail "bnn_lit: not closed" c else
+  (let k := eval vm_compute in (lit_k c) in
+   apply (lit_bnn c k); vm_compute; reflexivity).
+
+(* derive [bnn e ?k] (finite, 0 <= e <= 2^k) by recursion over e; leaves from the context *)
+Ltac bnn_tac :=
+  cbn [f_add f_sub f_mul f_div f_lit f_abs f_neg f_floor f_trunc zf f_of_Z B0 B64ops B64opsC];
+  lazymatch goal with
+  | |- bnn (?a + ?b)%float _ => first [ eassumption | eapply add_bnn; [bnn_tac | bnn_tac | vm_compute; reflexivity] ]
+  | |- bnn (?a * ?b)%float _ => first [ eassumption | eapply mul_bnn; [bnn_tac | bnn_tac | vm_compute; reflexivity] ]
+  | |- bnn (?a / ?b)%float _ => first [ eassumption
+                                       | eapply div_lit_bnn; [bnn_tac | vm_compute; reflexivity | vm_compute; reflexivity]
+                                       | timeout 5 (bnn_lit (a / b)%float) ]
+  | |- bnn (pymod ?a ?y) _ => eapply pymod_bnn; [bnd_tac | bnd_tac | apply lit_pos_chk; reflexivity]
+  | |- bnn ?c _ => first [ eassumption | timeout 5 (bnn_lit c) ]
   end.
